@@ -725,7 +725,7 @@ func main() {
 	if c.Thorough() {
 		d2mode = 2
 	}
-	deadline := c.Deadline(25*time.Second, 8*time.Minute)
+	deadline := c.Deadline(4*time.Minute, 20*time.Minute) // safety only: the quick plan needs ~30 s, the thorough plan ~6 min on an idle 16-core machine
 	if d, err := time.ParseDuration(os.Getenv("VERIF_DEADLINE")); err == nil && d > 0 { // debugging aid (overloaded machine)
 		deadline = time.Now().Add(d)
 	}
@@ -760,6 +760,8 @@ func main() {
 	c.Assume("receiver reuse: decoding into an existing value with cbor.Decode is a supported use (the era transaction decoders reset their cached fields for it), and decoded objects may be copied by value")
 	c.Assume("blocks are decoded with the documented SkipBodyHashValidation option (re-encoding a body segment necessarily changes the body hash the header commits to); headers and transactions with their plain constructors")
 	c.Assume("a Shelley…Conway transaction has no contiguous encoding inside a block; for those Transaction.Cbor() is required to be an array whose body, witness-set and auxiliary-data items are the exact wire bytes of those components")
+	// free-running -race pass: concurrent callers decoding their own copies (state shared between calls)
+	c.RaceAudit("c01")
 	c.Finish()
 }
 
